@@ -5,6 +5,9 @@
 //      call's result bytes are compared with the same call alone in a fresh process; operand bytes before/after each call
 //  (C) aliasing: results assigned back onto an operand equal the unaliased computation, bit for bit
 #include "harness.hpp"
+#include <manif/algorithms/interpolation.h>
+#include <manif/algorithms/average.h>
+#include <manif/algorithms/decasteljau.h>
 #include <sys/wait.h>
 #include <unistd.h>
 #include <functional>
@@ -206,6 +209,22 @@ template <class G> struct C09 {
     add("X.cast<other>()", [c] { typedef typename std::conditional<std::is_same<S, double>::value, float, double>::type O; return bytes(c->bX.template cast<O>().coeffs()); });
     add("Random(seed 3)", [] { srand(3); return bytes(G::Random().coeffs()); });
     add("Tangent::Random(seed 3)", [] { srand(3); return bytes(T::Random().coeffs()); });
+    // the algorithm layer (added after seed C09c: a function-local static bound on the first call made a later call with another
+    // degree return the wrong polynomial): every method / degree is its own letter, so all ordered pairs of degrees are explored
+    add("interpolate(SLERP)", [c] { return bytes(manif::interpolate(c->bX, c->bY, S(0.25), manif::INTERP_METHOD::SLERP).coeffs()); });
+    add("interpolate(CUBIC)", [c] { return bytes(manif::interpolate(c->bX, c->bY, S(0.25), manif::INTERP_METHOD::CUBIC, c->bs, c->bs).coeffs()); });
+    add("interpolate(CNSMOOTH)", [c] { return bytes(manif::interpolate(c->bX, c->bY, S(0.25), manif::INTERP_METHOD::CNSMOOTH, c->bs, c->bs).coeffs()); });
+    for (unsigned m = 1; m <= 4; ++m) {
+      add("interpolate_smooth(m=" + std::to_string(m) + ")", [c, m] { return bytes(manif::interpolate_smooth(c->bX, c->bY, S(0.25), m, c->bs, c->bs).coeffs()); });
+      add("smoothing_phi(0.25," + std::to_string(m) + ")", [m] { S v = manif::smoothing_phi(S(0.25), m); return std::string((const char*)&v, sizeof v); });
+    }
+    add("average_biinvariant", [c] { std::vector<G> v; v.push_back(c->bX); v.push_back(c->bX + c->bs * S(0.1)); v.push_back(c->bX + c->bs * S(-0.05)); return bytes(manif::average_biinvariant(v).coeffs()); });
+    add("average_frechet_left", [c] { std::vector<G> v; v.push_back(c->bX); v.push_back(c->bX + c->bs * S(0.1)); v.push_back(c->bX + c->bs * S(-0.05)); return bytes(manif::average_frechet_left(v).coeffs()); });
+    add("average_frechet_right", [c] { std::vector<G> v; v.push_back(c->bX); v.push_back(c->bX + c->bs * S(0.1)); v.push_back(c->bX + c->bs * S(-0.05)); return bytes(manif::average_frechet_right(v).coeffs()); });
+    add("decasteljau(4pts,d=3,k=2)", [c] { std::vector<G> v; v.push_back(c->bX); v.push_back(c->bX + c->bs * S(0.1)); v.push_back(c->bX + c->bs * S(0.2)); v.push_back(c->bX + c->bs * S(0.3));
+                                          std::vector<G> r = manif::decasteljau(v, 3, 2, false); std::string o; for (size_t i = 0; i < r.size(); ++i) o += bytes(r[i].coeffs()); return o; });
+    add("decasteljau(4pts,d=2,k=1,closed)", [c] { std::vector<G> v; v.push_back(c->bX); v.push_back(c->bX + c->bs * S(0.1)); v.push_back(c->bX + c->bs * S(0.2)); v.push_back(c->bX + c->bs * S(0.3));
+                                          std::vector<G> r = manif::decasteljau(v, 2, 1, true); std::string o; for (size_t i = 0; i < r.size(); ++i) o += bytes(r[i].coeffs()); return o; });
   }
 
   // run the calls `seq` in a fresh child; returns the result bytes of the last call + a flag that operands stayed intact
